@@ -138,6 +138,8 @@ impl IdMap {
         mut labels: Vec<LabelId>,
         internal_id: InternalNodeId,
     ) -> Result<()> {
+        #[cfg(nervusdb_verif)]
+        let _owner = nervusdb_api::verif::owner_scope("node_table");
         let expected = self.next_internal_id();
         if internal_id != expected {
             return Err(Error::WalProtocol("non-dense internal id"));
